@@ -73,7 +73,8 @@ type leafer struct {
 	seen      map[seenKey]bool
 	seenField map[types.Object]bool
 	seenParam map[types.Object]bool
-	inField   int // > 0 while the assignments of a struct field are followed
+	inReach   bool // the row stands in a function reachable from the compare roots
+	inField   int  // > 0 while the assignments of a struct field are followed
 	steps     int
 }
 
@@ -81,6 +82,7 @@ const leafBudget = 20000
 
 func (a *wana) leavesOf(f *wfunc, e ast.Expr) []string {
 	l := &leafer{a: a, out: map[string]bool{}, seen: map[seenKey]bool{}, seenField: map[types.Object]bool{}, seenParam: map[types.Object]bool{}}
+	l.inReach = a.reach[f.name] || (f.root != nil && a.reach[f.root.name])
 	l.expr(&lenv{fn: f}, e, -1)
 	var res []string
 	for s := range l.out {
@@ -266,13 +268,22 @@ func (l *leafer) ident(env *lenv, id *ast.Ident, want int) {
 	l.typeSource(v.Type())
 }
 
-// paramAtCallSites: while a struct field is followed (s.urlPrefix = f(addr, key) inside a helper
-// setAPIKey(addr, key)) a parameter of the function that assigns the field stands for the arguments
-// at the function's call sites IN THE SAME PACKAGE — an assignment moved into a helper is followed as
-// if it stood at the call.  A function without such call sites (an entry point of the package, a
-// closure handed to another package) keeps `param`.
+// paramAtCallSites: a parameter stands for the arguments at the call sites of its function
+//
+//   - while a struct field is followed (s.urlPrefix = f(addr, key) inside a helper setAPIKey(addr, key)):
+//     the static call sites of the assigning function in its own package;
+//   - in the row itself, if the function is a MODULE-LOCAL HELPER: unexported, not a closure, every use
+//     a static call from its own package.  Such a helper is looked through: extracting a piece of
+//     a function into a helper, or inlining the helper, gives the same leaves (the helper's name
+//     and its parameter list are no part of the fact).  For a row on the compare side only the
+//     call sites on the compare side count (a caller that compare cannot reach never runs in a
+//     compare run).
+//
+// Everything else keeps `param`: an exported function or method (the API of a package:
+// Conn.Send, IssueCmd … — the carrier fixpoint makes each of their callers a row of its own), a
+// closure, a function whose call sites are not known statically.
 func (l *leafer) paramAtCallSites(fr *lenv, v types.Object) bool {
-	if l.inField == 0 || fr.bind != nil {
+	if fr.bind != nil {
 		return false
 	}
 	g := fr.fn
@@ -281,6 +292,20 @@ func (l *leafer) paramAtCallSites(fr *lenv, v types.Object) bool {
 		return false
 	}
 	sites := l.a.callSites[g.name]
+	if l.inField == 0 {
+		if g.obj == nil || g.obj.Exported() || l.a.usedAsValue[g.obj] {
+			return false
+		}
+		if l.inReach {
+			var in []callSite
+			for _, st := range sites {
+				if l.a.reach[st.in.name] || l.a.reach[st.in.root.name] {
+					in = append(in, st)
+				}
+			}
+			sites = in
+		}
+	}
 	if len(sites) == 0 {
 		return false
 	}
